@@ -222,6 +222,12 @@ theorem C10_final_all_returned (s s' : St) (h : step s .final = .ok s') : s.call
   · next h1 => simpa using h1
   · exact absurd hp (by simp)
 
+/-- **C10, no wake-up by somebody else's event.** The harness reports `spurious` when the engine tells a thread that the descriptor
+    and direction it waits for is ready although `poll()` on exactly that descriptor and direction says it is not; no history
+    containing such a report is accepted. -/
+theorem C10_no_spurious_wakeup (s s' : St) : step s .spurious ≠ .ok s' := by
+  intro h; obtain ⟨hp, _⟩ := step_ok s s' _ h; simp [pre] at hp
+
 /-! ### every accepted history -/
 
 /-- consecutive deliveries `(offset, length)` tile `[a, b)` in order -/
@@ -264,6 +270,7 @@ theorem eff_inv (s : St) (ev : Ev) (hi : Inv s) (hp : pre s ev = none) : Inv (ef
   | tick n => exact inv_of_dir_eq s _ rfl hi
   | quiescent => exact hi
   | final => exact hi
+  | spurious => exact hi
   | shutdown ep =>
     simp only [eff]
     apply inv_setDir s ep _ hi
